@@ -17,7 +17,14 @@ func init() {
 	properties["C05"] = &Property{Gen: genC05, Run: serveRunner(oracleC05)}
 	properties["C07"] = &Property{Gen: genC07, Run: serveRunner(oracleC07)}
 	properties["C10"] = &Property{Gen: genC10, Run: serveRunner(oracleC10)}
-	properties["C11"] = &Property{Gen: genC11, Run: serveRunner(oracleC11)}
+	c11serve, c11life := serveRunner(oracleC11), lifeRunner(oracleC19)
+	properties["C11"] = &Property{Gen: genC11, Run: func(toks []string) Result {
+		if toks[0] == "life" {
+			// the "connection is released" clause on real sockets (plain and TLS), where closing can itself fail
+			return c11life(toks)
+		}
+		return c11serve(toks)
+	}}
 	properties["C20"] = &Property{Gen: genC20, Run: serveRunner(oracleC20)}
 }
 
@@ -198,7 +205,8 @@ func genC05(tier string, seed uint64, emit func(string)) {
 	}
 	// unknown commands: error reply, no handler call
 	for i := 0; i < per; i++ {
-		name := []byte([]string{"NOSUCH", "GETX", "", "G E T", "SE", "get\x00", "FLUSHALL", "ZADDX"}[r.Intn(8)])
+		// (incl. names whose Unicode upper case would spell a command: U+017F long s, U+0131 dotless i, U+212A Kelvin)
+		name := []byte([]string{"NOSUCH", "GETX", "", "G E T", "SE", "get\x00", "FLUSHALL", "ZADDX", "\u017fet", "p\u0131ng", "\u017fcan", "\u212aEYS", "g\u00e9t"}[r.Intn(13)])
 		argv := [][]byte{name, gS(r)}
 		emit(serveLine("-", [][]byte{requestBytes(argv, nil)}, genScript(r, 1, false), "", "unknown"))
 	}
@@ -645,6 +653,14 @@ func oracleC07(c *serveCase, extra []string, res *serveResult) (string, []string
 // ---------------------------------------------------------------------------------------------------
 
 func genC11(tier string, seed uint64, emit func(string)) {
+	// a request cut off by the client going away - orderly, by reset, between CR and LF, inside a bulk payload - on real
+	// plain and TLS connections: the connection must leave the registry, its goroutine and socket must go
+	for _, k := range []string{"p", "t"} {
+		for _, e := range []string{"half", "halfcr", "halfbulk", "rst", "unread"} {
+			emit(lifeLine("plain tls", []string{"start", "open:" + k + ":ab", "cmd:ab", e + ":ab", "obs", "ping:" + k, "stop", "obs"}))
+		}
+		emit(lifeLine("plain tls", []string{"start", "open:" + k + ":abc", "stallreq:abc", "rst:abc", "obs", "ping:" + k, "stop", "obs"}))
+	}
 	r := NewRng(seed)
 	n := 60
 	if tier == "thorough" {
@@ -724,6 +740,22 @@ func genC20(tier string, seed uint64, emit func(string)) {
 			emit(serveLine(cfg, [][]byte{b[:len(b)-len(p.reqs[len(p.reqs)-1])]}, script, floatTable(p.argvs...), ""))
 		}
 		emit(serveLine(cfg, [][]byte{b[:r.Intn(len(b)+1)]}, script, floatTable(p.argvs...), ""))
+		// requests that are well-formed RESP values but not command arrays (a status line, an integer, a bulk string, a
+		// null, an error, an empty or nested array) between ordinary commands
+		if i%4 == 2 {
+			odd := [][]byte{[]byte("+OK\r\n"), []byte(":1\r\n"), []byte("$3\r\nfoo\r\n"), []byte("$-1\r\n"), []byte("-ERR x\r\n"), []byte("*0\r\n"), []byte("*-1\r\n"),
+				[]byte("*1\r\n*1\r\n$4\r\nPING\r\n"), []byte("*1\r\n$-1\r\n"), []byte("*2\r\n:1\r\n$4\r\nPING\r\n")}
+			var mixed []byte
+			for _, q := range p.reqs {
+				if r.Bool() {
+					mixed = append(mixed, odd[r.Intn(len(odd))]...)
+				}
+				mixed = append(mixed, q...)
+			}
+			mixed = append(mixed, odd[r.Intn(len(odd))]...)
+			mixed = append(mixed, reqS("PING")...)
+			emit(serveLine(cfg, [][]byte{mixed}, script, floatTable(p.argvs...), ""))
+		}
 		// the stream ends with the socket closed underneath the reader (Stop) or reset by the peer, at a request
 		// boundary and inside a request
 		if i%3 == 1 {
